@@ -403,7 +403,7 @@ fn real_main() {
          union or reset happened, depth(v) <= floor(log2(component size)) for every v; frozen clones are re-checked against their snapshot \
          at the end. (b) scaled adversarial patterns (forward/backward chains, binomial unions of equal-size roots, big root onto \
          singleton and the reverse, random with lookups) with generated size/seed up to 10^5 (quick) / 10^6 (thorough), forest checked \
-         at checkpoints. Non-trivial (a) = a union joined two components both of size >= 2 and a later query hit a non-root; (b) = \
+         at checkpoints, then lookups from the eight deepest vertices; the binomial worst case at exactly 2^17, 2^17+1, 2^18 (2^20 thorough) elements (forest depth 17..20). Non-trivial (a) = a union joined two components both of size >= 2 and a later query hit a non-root; (b) = \
          pattern with n >= 1000. Distinct = distinct (sub-check, case).",
     );
     ctx.assume("forest depth is read through rlib_dsu's feature-gated read-only accessors (hook), which do not compress paths");
